@@ -221,6 +221,12 @@ _reg(Tool("reduce", "agg", (1, 1),
           lambda S, F, P, V: a.reduce(F["fn"], S[0], *_positional_opt(V, "initial")),
           lambda S, F, P, V: functools.reduce(F["fn"], S[0], *_positional_opt(V, "initial")),
           roles=(("fn", "derive"),), profiles=(I,)))
+_BUILTIN_OPS = {"add": operator.add, "max": builtins.max, "concat": operator.concat}
+# the reduction is a C-level callable: no double can log its calls, but what it does to the items is observable
+_reg(Tool("reduce_builtin", "agg", (1, 1),
+          lambda S, F, P, V: a.reduce(_BUILTIN_OPS[P["op"]], S[0], *_positional_opt(V, "initial")),
+          lambda S, F, P, V: functools.reduce(_BUILTIN_OPS[P["op"]], S[0], *_positional_opt(V, "initial")),
+          profiles=(N, N, 'grumpy-add', "lists", 'grumpy-order')))
 _reg(Tool("nlargest", "agg", (1, 1),
           lambda S, F, P, V: a.nlargest(S[0], P["n"], key=F.get("key")),
           lambda S, F, P, V: heapq.nlargest(P["n"], S[0], key=F.get("key")),
